@@ -1,5 +1,6 @@
 import ZCV.Gen.Datatypes
 import ZCV.Model.Val
+import ZCV.Inet
 /-!
 Model of `ZConfig/datatypes.py`: the stock conversions, mirroring the code, with the
 patterns, tables and bounds taken from the generated module.
@@ -98,47 +99,6 @@ end ZCV.DT
 
 namespace ZCV.DT
 open ZCV ZCV.Rx
-
-def isHexDigit (c : Char) : Bool := isAsciiDigit c || inRange 'a' 'f' c || inRange 'A' 'F' c
-
-/-- glibc `inet_pton4` -/
-def pton4Go : Str → Bool → Nat → Nat → Bool
-  | [], _, octets, _ => octets ≥ 4
-  | ch :: r, saw, octets, cur =>
-    if isAsciiDigit ch then
-      let new := cur * 10 + (ch.toNat - 48)
-      if saw && cur == 0 then false
-      else if new > 255 then false
-      else if !saw then (if octets + 1 > 4 then false else pton4Go r true (octets + 1) new)
-      else pton4Go r true octets new
-    else if ch == '.' && saw then (if octets == 4 then false else pton4Go r false octets 0)
-    else false
-def pton4 (s : Str) : Bool := pton4Go s false 0 0
-
-def pton6Finish (tp : Nat) (colon : Bool) (xd : Nat) : Bool :=
-  if xd > 0 && tp + 2 > 16 then false
-  else
-    let tp := if xd > 0 then tp + 2 else tp
-    if colon then tp != 16 else tp == 16
-
-/-- glibc `inet_pton6` main loop: `tp` counts bytes written, `colon` = "`::` seen" -/
-def pton6Loop : Str → Str → Nat → Bool → Nat → Bool
-  | [], _, tp, colon, xd => pton6Finish tp colon xd
-  | ch :: r, curtok, tp, colon, xd =>
-    if isHexDigit ch then (if xd == 4 then false else pton6Loop r curtok tp colon (xd + 1))
-    else if ch == ':' then
-      if xd == 0 then (if colon then false else pton6Loop r r tp true 0)
-      else if r == [] then false
-      else if tp + 2 > 16 then false
-      else pton6Loop r r (tp + 2) colon 0
-    else if ch == '.' && tp + 4 ≤ 16 && pton4 curtok then pton6Finish (tp + 4) colon 0
-    else false
-
-def pton6 (s : Str) : Bool :=
-  match s with
-  | [] => false
-  | ':' :: r => (match r with | ':' :: _ => pton6Loop r r 0 false 0 | _ => false)
-  | _ => pton6Loop s s 0 false 0
 
 /-- `IpaddrOrHostname.__call__` -/
 def ipaddrOrHostname (v : Str) : R Str := do
